@@ -132,6 +132,17 @@ Theorem C14_tombstone_hides : forall r t c node q inactive lifetime,
 Proof. exact tombstone_hides. Qed.
 Print Assumptions C14_tombstone_hides.
 
+(* also for the wildcard topic (outside [op_det]): whatever registrations Go's map order
+   picks, registrations are untouched and a changed mark belongs to a producer registered
+   for that topic whose node is the named one *)
+Theorem C14_tombstone_any_request : forall s t c node u p,
+  let s' := fst (h_tombstone s (QArgs (Some t) c (Some node))) in
+  (forall k q, a_prod (db s') k q = a_prod (db s) k q) /\
+  (a_tomb (db s') u p <> a_tomb (db s) u p ->
+   a_tomb (db s') u p = Some (now s) /\ a_prod (db s) (topic_key u) p = true /\ node_matches s node p = true).
+Proof. exact tombstone_any_request. Qed.
+Print Assumptions C14_tombstone_any_request.
+
 (* ... and lapses after the tombstone lifetime or when that producer unregisters the topic
    (REGISTER alone, or unregistering a channel, does not clear it) *)
 Theorem C14_tombstone_lapses : forall r t q at_ d lifetime,
